@@ -38,7 +38,9 @@ pub fn replay(v: &Value) -> i32 {
             let kind = r["kind"].as_str().unwrap_or("");
             let pad = r["pad"].as_u64().unwrap_or(0) as usize;
             let k = crate::amlobj::SIZED_KINDS.iter().position(|x| *x == kind).unwrap_or(0);
-            match twice(|| catch(|| crate::amlobj::sized(k, pad))) {
+            let nv = r["name_variant"].as_u64().unwrap_or(0) as usize;
+            let direct = r["direct_child"].as_bool().unwrap_or(false);
+            match twice(|| catch(|| crate::amlobj::sized_v(k, pad, nv, direct))) {
                 Some(Ok(b)) => {
                     let ol = crate::amlobj::opcode_len(k);
                     println!("{} with pad {}: {} bytes; {} follow the opcode; PkgLength {} decodes to {:?}", kind, pad, b.len(), b.len() - ol, hex(&b[ol..(ol + 4).min(b.len())]), pkg_decode(&b[ol..]));
